@@ -1178,6 +1178,9 @@ func (f *Frame) refineHavoc(pre, head *State, heaps map[string]bool, mark int, r
 		var stableRefs []*Term
 		freshOnly := true
 		for _, r := range refs {
+			if r == newObjMarker {
+				continue // an object allocated by a callee during the iteration
+			}
 			if stableTerm(r, mark) {
 				stableRefs = append(stableRefs, r)
 				continue
@@ -1195,7 +1198,7 @@ func (f *Frame) refineHavoc(pre, head *State, heaps map[string]bool, mark int, r
 		if !has {
 			preT = c.heapInitE(h, pre.epoch)
 		}
-		allStable := len(stableRefs) == len(refs)
+		allStable := len(stableRefs) == len(refs) // (a marker or an iteration-fresh object makes this false)
 		if !allStable {
 			// some writes go to objects allocated during an iteration: the array is havocked, but every object that
 			// existed before the loop (other than the loop-invariant written ones) keeps its content
@@ -1216,6 +1219,16 @@ func (f *Frame) refineHavoc(pre, head *State, heaps map[string]bool, mark int, r
 				conds = append(conds, Ne(rv, r))
 			}
 			c.assume(head, Forall([]*Term{rv}, Implies(And(conds...), Eq(Select(nh, rv), Select(preT, rv))), Select(nh, rv)))
+			if len(nh.Args) == 0 {
+				if c.clFrame == nil {
+					c.clFrame = map[string]clInfo{}
+				}
+				var rr []*Term
+				for _, r := range stableRefs {
+					rr = append(rr, r)
+				}
+				c.clFrame[nh.Op] = clInfo{old: preT, refs: rr}
+			}
 			continue
 		}
 		nh := preT
@@ -1243,6 +1256,16 @@ func (c *Ctx) storesOver(t, base *Term, depth int) ([]*Term, bool) {
 	if len(t.Args) == 0 {
 		if d, ok := c.defOf[t.Op]; ok {
 			return c.storesOver(d, base, depth+1)
+		}
+		if ci, ok := c.clFrame[t.Op]; ok {
+			// an array produced by a call (or a loop head) with a frame fact: differs from its predecessor only at
+			// the listed references and at objects allocated later
+			rs, ok := c.storesOver(ci.old, base, depth+1)
+			if !ok {
+				return nil, false
+			}
+			rs = append(rs, ci.refs...)
+			return append(rs, newObjMarker), true
 		}
 		return nil, false
 	}
